@@ -50,6 +50,8 @@ def run(ctx):
     for s, w in valcases.scalar_corpus() + valcases.schema_batch(ctx, ctx.n(80, 600), customs=False):
         cases += valcases.value_cases(ctx, s, w, perturb=ctx.n(14, 40), zoo=ctx.n(3, 8), inject=ctx.n(2, 6))
     cases += valcases.list_form_value_cases(ctx)
+    from .. import hostile
+    cases += hostile.defaulting_dict_cases()
     for c in cases:
         valcorr.run_real(c)
         valcorr.prepare(c)
